@@ -106,7 +106,9 @@ def require(ctx, pid, groups):
     for other, rules, text in groups:
         keys = own_violations(ctx, other)
         if rules is not None:
-            keys = [k for k in keys if any("/%s/" % r in k for r in rules)]
+            # (a rule set that gave up on an unrecognised construct did not evaluate the rules after that point: the
+            # premise is then not established, whichever rules it names)
+            keys = [k for k in keys if any("/%s/" % r in k for r in rules) or "/anchor/" in k or "/internal/" in k]
         n += 1
         label = "%s:%s" % (other, ",".join(sorted(r.split("-", 1)[1] for r in rules)) if rules else "%s:all-rules" % other)
         ck.ob(pid + "-premise", "-", "premise(%s):%s" % (label, text[:110].replace("/", "|")), not keys,
